@@ -505,20 +505,22 @@ struct BuiltinCnt {
     with_dups: AtomicU64,
 }
 
-fn check_builtin(n: usize, m: usize, assoc: bool, wide: bool, a_wider: bool, cnt: &BuiltinCnt, coll: &Collector) {
+fn check_builtin(n: usize, m: usize, assoc: bool, wide: bool, a_wider: bool, key_only: bool, cnt: &BuiltinCnt, coll: &Collector) {
+    // key_only: the rows are one-field tuples `(key)` - rows with associated data of zero bits
+    let assoc_like = assoc || key_only;
     let kdom: Vec<u64> = if wide { vec![0, 1, 256, 65535] } else { vec![0, 1, 2, 255] };
     let kty = if wide { IntTy::U16 } else { IntTy::U8 };
     let kname = kty.name();
     let (pa_ty, pb_ty) = if a_wider { (IntTy::U16, IntTy::U8) } else { (IntTy::U8, IntTy::U16) };
-    let (ta, tb) = if assoc { (format!("({kname}, {})", pa_ty.name()), format!("({kname}, {})", pb_ty.name())) } else { (kname.to_string(), kname.to_string()) };
-    let elem = if assoc { format!("(bool, {ta}, {tb})") } else { format!("(bool, {kname})") };
+    let (ta, tb) = if assoc { (format!("({kname}, {})", pa_ty.name()), format!("({kname}, {})", pb_ty.name())) } else if key_only { (format!("({kname})"), format!("({kname})")) } else { (kname.to_string(), kname.to_string()) };
+    let elem = if assoc_like { format!("(bool, {ta}, {tb})") } else { format!("(bool, {kname})") };
     let src = format!("pub fn main(a: [{ta}; {n}], b: [{tb}; {m}]) -> [{elem}; const {{ {n}usize + {m}usize - 1usize }}] {{\n  join(a, b)\n}}\n");
-    let site = format!("J/builtin/{}/{}/n{}m{}", kname, if !assoc { "set" } else if a_wider { "assoc-a-wider" } else { "assoc" }, n, m);
+    let site = format!("J/builtin/{}/{}/n{}m{}", kname, if key_only { "key-only-tuples" } else if !assoc { "set" } else if a_wider { "assoc-a-wider" } else { "assoc" }, n, m);
     cnt.programs.fetch_add(1, Ordering::Relaxed);
     let defs = Defs::default();
     let kbits = kty.bits() as usize;
     let (ea_bits, eb_bits) = if assoc { (kbits + pa_ty.bits() as usize, kbits + pb_ty.bits() as usize) } else { (kbits, kbits) };
-    let out_elem_bits = 1 + if assoc { ea_bits + eb_bits } else { kbits };
+    let out_elem_bits = 1 + if assoc_like { ea_bits + eb_bits } else { kbits };
     for cfg in [Config { register: false, dedup: true }, Config { register: true, dedup: false }] {
         let cp = match subject::compile(&src, cfg, HashMap::new()) {
             CompileOutcome::Ok(p) => p,
@@ -542,6 +544,8 @@ fn check_builtin(n: usize, m: usize, assoc: bool, wide: bool, a_wider: bool, cnt
                         let key = Val::Int(kdom[*k] as i128, kty);
                         if assoc {
                             Val::Tup(vec![key, Val::Int(if a_wider { 0x0101 } else { 1 } + i as i128, pa_ty)])
+                        } else if key_only {
+                            Val::Tup(vec![key])
                         } else {
                             key
                         }
@@ -554,6 +558,8 @@ fn check_builtin(n: usize, m: usize, assoc: bool, wide: bool, a_wider: bool, cnt
                         let key = Val::Int(kdom[*k] as i128, kty);
                         if assoc {
                             Val::Tup(vec![key, Val::Int(if a_wider { 100 } else { 1000 } + j as i128, pb_ty)])
+                        } else if key_only {
+                            Val::Tup(vec![key])
                         } else {
                             key
                         }
@@ -603,7 +609,7 @@ fn check_builtin(n: usize, m: usize, assoc: bool, wide: bool, a_wider: bool, cnt
                         };
                         let k1 = key_of(&eb[1..]);
                         got_keys.push(k1);
-                        if assoc {
+                        if assoc_like {
                             let a_part = &eb[1..1 + ea_bits];
                             let b_part = &eb[1 + ea_bits..];
                             let in_a = enc_a.iter().any(|v| v.bits(&defs) == a_part);
@@ -728,8 +734,12 @@ pub fn run(tier: Tier) -> i32 {
     let bc = BuiltinCnt { programs: AtomicU64::new(0), evals: AtomicU64::new(0), with_matches: AtomicU64::new(0), with_dups: AtomicU64::new(0) };
     let max_b = tier.pick(6usize, 7usize);
     let mut bjobs = vec![];
+    let mut key_only_jobs = vec![];
     for n in 1..=max_b {
         for m in 1..=max_b {
+            if n <= 4 && m <= 4 {
+                key_only_jobs.push((n, m));
+            }
             for assoc in [false, true] {
                 bjobs.push((n, m, assoc, false, false));
             }
@@ -743,7 +753,11 @@ pub fn run(tier: Tier) -> i32 {
     }
     let done_c = par_range(bjobs.len(), &budget, |i| {
         let (n, m, assoc, wide, a_wider) = bjobs[i];
-        check_builtin(n, m, assoc, wide, a_wider, &bc, &coll);
+        check_builtin(n, m, assoc, wide, a_wider, false, &bc, &coll);
+    });
+    par_range(key_only_jobs.len(), &budget, |i| {
+        let (n, m) = key_only_jobs[i];
+        check_builtin(n, m, false, false, false, true, &bc, &coll);
     });
     let complete = done_a == net_jobs.len() && fr.complete && done_c == bjobs.len() && !budget.hit();
     let report = Report {
